@@ -327,10 +327,16 @@ impl ZchState {
         }
         let mut is_prioritized_activation = false;
         if !matches!(activation, HasValue(..)) {
+            let is_subset_of_followup = matches!(activation, IsSubset);
             activation = self
                 .zch_chords
                 .0
                 .ssm_get_or_is_subset_ksorted(self.zchd.zchd_input_keys.zchik_keys());
+            if is_subset_of_followup && matches!(activation, Neither) {
+                // The pressed keys are on the way to a followup chord even though they are part
+                // of no first chord: keep waiting for the rest of the followup chord.
+                activation = IsSubset;
+            }
         } else {
             is_prioritized_activation = true;
         }
